@@ -16,6 +16,8 @@ From P7 Require AesGen CrcGen.
 From P7gen Require AesBuf HelpersCrc.
 From P7 Require PyPrims DecompGen.
 From P7gen Require DecompChain.
+From P7 Require CompSession CompGen.
+From P7gen Require CompChain.
 Open Scope Z_scope.
 
 (* ------------------------------------------------------------------------------------ *)
@@ -629,3 +631,79 @@ Theorem C01_gen_decompress_len :
   zlen out <= ml.
 Proof. exact DecompGen.gen_decompress_len. Qed.
 Print Assumptions C01_gen_decompress_len.
+
+(* ---- third wave (stage 9): SevenZipCompressor.compress / flush as translated from py7zr/compressor.py on this run
+   (gen/CompChain.v; the elements of self.chain are the same abstract cstep / cflush, fd.read may return short reads
+   according to the schedule, what fp.write receives is the last component of the result, zlib.crc32 is Crc32.crc32_update)
+   ARE Comp.v's compress / flush on the object's state.  Every CRC goes through helpers.calculate_crc32 on the method's fuel:
+   when that fuel does not cover a block the generated method answers Err EFuel, which the model does not do for that reason;
+   hence "Err EFuel or the model's answer".  CompSession.gen_session is a write session made of the generated methods
+   (compress for every member, then flush); the theorems about write sessions above hold for it. ---- *)
+Theorem C01_gen_compress_is_model :
+  forall (cst : Type) (cstep : cst -> bytes -> cst * bytes) (self : CompChain.SevenZipCompressor cst) (fd : bytes) (fuel : nat)
+         (crc : Z) (sched : list nat),
+    0 <= crc < 2 ^ 32 -> 0 <= CompChain.SevenZipCompressor_digest self < 2 ^ 32 ->
+    CompChain.SevenZipCompressor_compress cst cstep CompGen.zcrc self fd fuel crc sched = Err EFuel \/
+    CompChain.SevenZipCompressor_compress cst cstep CompGen.zcrc self fd fuel crc sched =
+      match compress cstep fuel (CompGen.st_of cst self []) fd sched crc with
+      | Ok (st', fd', info) => Ok (((CompGen.of_st cst st', info), fd'), cout st')
+      | Err e => Err e
+      end.
+Proof. exact CompGen.gen_compress_or. Qed.
+Print Assumptions C01_gen_compress_is_model.
+
+Theorem C01_gen_flush_is_model :
+  forall (cst : Type) (cstep : cst -> bytes -> cst * bytes) (cflush : cst -> cst * bytes) (self : CompChain.SevenZipCompressor cst)
+         (fuel : nat),
+    0 <= CompChain.SevenZipCompressor_digest self < 2 ^ 32 ->
+    CompChain.SevenZipCompressor_flush cst cstep cflush CompGen.zcrc self fuel = Err EFuel \/
+    CompChain.SevenZipCompressor_flush cst cstep cflush CompGen.zcrc self fuel =
+      match flush cstep cflush (CompGen.st_of cst self []) with
+      | Ok (st', n) => Ok ((CompGen.of_st cst st', n), cout st')
+      | Err e => Err e
+      end.
+Proof. exact CompGen.gen_flush_or. Qed.
+Print Assumptions C01_gen_flush_is_model.
+
+(* a session of the generated methods that completes is the model's write session: same final object, same bytes written,
+   same (insize, foutsize, crc) per member, same flush result *)
+Theorem C01_gen_session_is_write_session :
+  forall (cst : Type) (cstep : cst -> bytes -> cst * bytes) (cflush : cst -> cst * bytes) (fuel : nat)
+         (ms : list (bytes * list nat)) (o o' : CompChain.SevenZipCompressor cst) (w : bytes) (infos : list (Z * Z * Z)) (n : Z),
+    0 <= CompChain.SevenZipCompressor_digest o < 2 ^ 32 ->
+    CompSession.gen_session cst cstep cflush CompGen.zcrc fuel o ms = Ok (o', w, infos, n) ->
+    write_session cstep cflush fuel (CompGen.st_of cst o []) ms = Ok (CompGen.st_of cst o' w, infos, n).
+Proof. exact CompGen.gen_session_ok_inv. Qed.
+Print Assumptions C01_gen_session_is_write_session.
+
+(* C01_compress_chain and C01_sizes_and_crcs for the code as translated *)
+Theorem C01_gen_compress_chain :
+  forall (cst : Type) (cstep : cst -> bytes -> cst * bytes) (cflush : cst -> cst * bytes)
+         (E : cst -> bytes -> bytes -> Prop) (wf : cst -> Prop),
+    (forall (s0 s : cst) (cin cout : bytes),
+        wf s0 -> ereach cstep s0 s cin cout -> E s0 cin (cout ++ snd (cflush s))) ->
+    forall (s0s : list cst) (bsz : Z) (fuel : nat) (ms : list (bytes * list nat))
+           (o' : CompChain.SevenZipCompressor cst) (w : bytes) (infos : list (Z * Z * Z)) (n : Z),
+      Forall wf s0s -> bsz <> 0 ->
+      CompSession.gen_session cst cstep cflush CompGen.zcrc fuel (CompGen.obj_init cst s0s bsz) ms = Ok (o', w, infos, n) ->
+      exists ins, Echain E s0s (concat (map fst ms)) ins w.
+Proof. exact CompGen.gen_compress_chain. Qed.
+Print Assumptions C01_gen_compress_chain.
+
+Theorem C01_gen_sizes_and_crcs :
+  forall (cst : Type) (cstep : cst -> bytes -> cst * bytes) (cflush : cst -> cst * bytes)
+         (E : cst -> bytes -> bytes -> Prop) (wf : cst -> Prop),
+    (forall (s0 s : cst) (cin cout : bytes),
+        wf s0 -> ereach cstep s0 s cin cout -> E s0 cin (cout ++ snd (cflush s))) ->
+    forall (s0s : list cst) (bsz : Z) (fuel : nat) (ms : list (bytes * list nat))
+           (o' : CompChain.SevenZipCompressor cst) (w : bytes) (infos : list (Z * Z * Z)) (n : Z),
+      Forall wf s0s -> bsz <> 0 ->
+      CompSession.gen_session cst cstep cflush CompGen.zcrc fuel (CompGen.obj_init cst s0s bsz) ms = Ok (o', w, infos, n) ->
+      map info_in infos = map (fun m : bytes * list nat => zlen (fst m)) ms /\
+      map info_crc infos = map (fun m : bytes * list nat => crc32 (fst m)) ms /\
+      CompChain.SevenZipCompressor_packsize o' = zlen w /\
+      CompChain.SevenZipCompressor_digest o' = crc32 w /\
+      zsum (map info_out infos) + n = CompChain.SevenZipCompressor_packsize o' /\
+      exists ins, Echain E s0s (concat (map fst ms)) ins w /\ CompChain.SevenZipCompressor__unpacksizes o' = map zlen ins.
+Proof. exact CompGen.gen_sizes_and_crcs. Qed.
+Print Assumptions C01_gen_sizes_and_crcs.
